@@ -348,7 +348,7 @@ def normalise_program(trees: dict[str, ast.Module]) -> dict[str, list[str]]:
                     _CS().generic_visit(fn)
     from .records import dissolve_objects, scalarise
 
-    for rel, ns in dissolve_objects(trees, known_classes).items():
+    for rel, ns in dissolve_objects(trees, known_classes, _abs_module).items():
         notes[rel] += ns
     # generated fields `holder__attr` go back to the reference tree's field names (same owner class, a field of the reference
     # tree that no longer exists, initialised by the same expression, names that agree in their last word)
